@@ -75,8 +75,19 @@ TRows == [1..Arity -> 0..NTreat]
 TCode(t) == FoldFunction(LAMBDA v, acc : acc * 10 + v, 0, t)      \* (order of slots irrelevant for the symmetry reduction below)
 CRow(i, t) == [id |-> i, s |-> 1, ts |-> t, pl |-> 1, obs |-> FALSE]
 
+(* ---- plain enumeration of small screens for the operations specified relationally only (pairwise / permutation generators,  *)
+(* sparse cover, hold-outs, segregating generator): no transcription, TLC is the source of every small input shape - which    *)
+(* samples have single-agent rows, which plates are observed, duplicates, controls in either or both slots                    *)
+TsChoices == {<<1, 2>>, <<2, 1>>, <<1, 0>>, <<0, 2>>, <<0, 0>>}
+RowChoices == Samples \X TsChoices \X (1..2)
+RCode(r) == r[1] * 1000 + r[2][1] * 100 + r[2][2] * 10 + r[3]
+ScreenInputs == UNION {{[x \in 1..n |-> [id |-> x, s |-> q[x][1], ts |-> q[x][2], pl |-> q[x][3], obs |-> po[q[x][3]]]] :
+                           q \in {qq \in [1..n -> RowChoices] : \A a \in 1..n - 1 : RCode(qq[a]) <= RCode(qq[a + 1])}, po \in [1..2 -> BOOLEAN]} :
+                       n \in 1..NRows}
+
 SmInit == /\ op \in SmOps /\ out = << >> /\ phase = 0
-          /\ IF op = "combofilter"
+          /\ IF op = "inputs" THEN param = 0 /\ in \in ScreenInputs ELSE
+             IF op = "combofilter"
              THEN /\ param = 0
                   /\ \E n \in 1..NRows : \E q \in [1..n -> TRows] :
                         /\ \A a \in 1..n - 1 : TCode(q[a]) <= TCode(q[a + 1])
@@ -99,7 +110,8 @@ ComboFilter == /\ phase = 0 /\ op = "combofilter"
                       sel == UNION {{in[x].ts[a] : a \in 1..Arity} : x \in full} \cup {0}
                   IN out' = SelectSeq(in, LAMBDA row : \A a \in 1..Arity : row.ts[a] \in sel)
                /\ phase' = 1 /\ UNCHANGED <<in, op, param>>
-SmNext == Fixed \/ Optimal \/ MergeMin \/ MergeTB \/ ComboFilter
+Pass == phase = 0 /\ op = "inputs" /\ out' = in /\ phase' = 1 /\ UNCHANGED <<in, op, param>>
+SmNext == Fixed \/ Optimal \/ MergeMin \/ MergeTB \/ ComboFilter \/ Pass
 
 Done(o) == phase = 1 /\ op = o
 FixedShape == Done("fixed") => SmoothKeepsSub(in, out) /\ FixedSizeOk(in, param, out)
@@ -109,5 +121,8 @@ MergeTBShape == Done("mergetb") => GenKeepsAll(in, out) /\ MergeSameSample(in, o
 ComboFilterShape == Done("combofilter") => ComboFilterOk(in, out)
 \* a smoothed screen can be smoothed again: what the ensemble smoother relies on
 FixedIdempotent == Done("fixed") => \A r \in 0..MaxSize - 1 : Truncate(out, param, r) = out
+\* the enumerated screens are legal inputs: a plate is wholly observed or wholly unobserved, identities are distinct
+InputsWellFormed == op = "inputs" => /\ \A x, y \in 1..Len(in) : in[x].pl = in[y].pl => in[x].obs = in[y].obs
+                                     /\ NoDuplicates(in)
 SmExport == (Export /\ phase = 0) => PrintT(ToJson([tag |-> "smooth-in", op |-> op, param |-> param, rows |-> in]))
 =============================================================================
